@@ -10,17 +10,23 @@
   list) from the initial state, for every deputy count, every fork shape, every confirmation
   multiset, and for ANY confirm verifier `V` (so they hold for the code as it is and for the repair).
 
-  FULL statement of the quorum part (refuted below on the faithful model, and on the real code by the
-  harness oracle `c03/quorum-not-distinct/malleated-sig`):
+  FULL statement of the quorum part — it now HOLDS and is `quorum_distinct_fixed`:
 
-      theorem quorum_distinct : ∀ dc n g ops op,
-        let s  := run verifyNewConfirms (init dc n g) ops
-        let s' := (step verifyNewConfirms s op).1
+      ∀ dc n g ops op,  n ≤ dc →
+        let s  := run verifyNewConfirmsFixed (init dc n g) ops
+        let s' := (step verifyNewConfirmsFixed s op).1
         s'.stable.id ≠ s.stable.id → twoThirds n ≤ distinctCount n s'.stable
 
-  It is false: `VerifyNewConfirms` / `IsConfirmExist` compare signature BYTES, the quorum test counts
-  signatures. `quorum_distinct_refuted` is the kernel-checked witness, `quorum_distinct_partial` the
-  theorem under the exact guard, `quorum_distinct_fixed` the full theorem for the repaired verifier.
+  `verifyNewConfirmsFixed` is the live model of `Validator.VerifyNewConfirms` since /repo commit
+  d34eb0a ("fix: count each deputy once when verifying block confirmations"); the harness ties it to
+  the real engine, and its oracle `c03/quorum-not-distinct/*` is silent.
+
+  History. On the code BEFORE commit d34eb0a (model `verifyNewConfirms`) the statement was false:
+  `VerifyNewConfirms` / `IsConfirmExist` compared signature BYTES while the quorum test counts
+  signatures. The kernel-checked witnesses `quorum_distinct_refuted*` are kept (they are what a revert
+  of the commit brings back: `VERIF_REPO=<reverted tree> ./check C03` reports
+  `c03/quorum-not-distinct/malleated-sig`), together with `quorum_distinct_partial`, the theorem the
+  old code satisfied under the exact guard.
 -/
 import LemoModel.Stable
 import LemoProofs.Lemmas.Stable
@@ -768,9 +774,9 @@ theorem stable_change_has {V : Verifier} {P : Nat → Blk → Prop} (hv : VOK V 
     exact m
 
 
-/-! ## the code as it is: signatures are distinct as BYTE STRINGS only -/
+/-! ## the code BEFORE /repo commit d34eb0a: signatures are distinct as BYTE STRINGS only -/
 
-/-- what `VerifyNewConfirms` + `IsConfirmExist` + `appendConfirm` really guarantee for a stored block:
+/-- what `VerifyNewConfirms` (before commit d34eb0a) + `IsConfirmExist` + `appendConfirm` guaranteed for a stored block:
     header signature and confirms are pairwise different byte strings, every confirm recovers to a
     deputy, the header signature recovers to the miner. Nothing about distinct SIGNERS. -/
 structure SigsOK (n : Nat) (b : Blk) : Prop where
@@ -861,7 +867,8 @@ theorem vok_faithful : VOK verifyNewConfirms SigsOK where
     have hacc := verifyLoop_acc n b sigs [] .none (accOK_nil n b)
     exact appendConfirm_sigsOK n _ b h (fun s hs => (hacc.2 s hs).1)
 
-/-- REFUTATION of the full statement `quorum_distinct` on the faithful model, 3 deputies:
+/-- REFUTATION of the full quorum statement on the model of THE CODE BEFORE /repo COMMIT d34eb0a
+    (`verifyNewConfirms`, bytes-only de-duplication), 3 deputies:
     block 1 (miner = deputy 0, canonical header signature `⟨0,0⟩`) arrives, then ONE confirmation
     packet holding the re-encoding `⟨0,1⟩` of the miner's own signature. The stable pointer moves to
     block 1 although one deputy out of three signed it (need 2). Anybody can forge that packet. -/
@@ -872,13 +879,15 @@ theorem quorum_distinct_refuted :
       s'.stable.id ≠ s.stable.id ∧ distinctCount n s'.stable < twoThirds n :=
   ⟨3, 3, 0, [.block ⟨1, 0, 1, 0, 1, ⟨some 0, 0⟩, []⟩ true], .confirms 1 1 [⟨some 0, 1⟩], by decide⟩
 
-/-- the same through a block that CARRIES the forged confirmation: one operation. -/
+/-- (code before commit d34eb0a) the same through a block that CARRIES the forged confirmation:
+    one operation. -/
 theorem quorum_distinct_refuted_carried :
     let s := init 3 3 0
     let s' := (step verifyNewConfirms s (.block ⟨1, 0, 1, 0, 1, ⟨some 0, 0⟩, [⟨some 0, 1⟩]⟩ true)).1
     s'.stable.id = 1 ∧ distinctCount 3 s'.stable = 1 ∧ twoThirds 3 = 2 := by decide
 
-/-- a deputy other than the miner doubling its own vote (needs that deputy's key: another nonce). -/
+/-- (code before commit d34eb0a) a deputy other than the miner doubling its own vote (needs that
+    deputy's key: another nonce). -/
 theorem quorum_distinct_refuted_resigned :
     let s := run verifyNewConfirms (init 4 4 0) [.block ⟨1, 0, 1, 0, 1, ⟨some 0, 0⟩, []⟩ true]
     let s' := (step verifyNewConfirms s (.confirms 1 1 [⟨some 2, 0⟩, ⟨some 2, 7⟩])).1
@@ -930,7 +939,8 @@ theorem enough_le {dc n : Nat} {b : Blk} (hn : n ≤ dc) (h : isConfirmEnough dc
   have := twoThirds_mono hn
   omega
 
-/-- PARTIAL theorem for the code as it is. Whenever the stable pointer moves to a block `b`, IF the
+/-- PARTIAL theorem the code before commit d34eb0a satisfied (superseded by `quorum_distinct_fixed` for
+    the current code). Whenever the stable pointer moves to a block `b`, IF the
     signatures stored for `b` (header + confirms) recover to pairwise different nodes — the exact
     guard: no node, the miner included, is represented by two different byte strings — THEN at least
     ⌈2n/3⌉ distinct deputies, miner included, signed `b`.
@@ -948,7 +958,7 @@ theorem quorum_distinct_partial (dc n g : Nat) (hn : n ≤ dc) (ops : List Op) (
   have h5 := enough_le hn hen
   exact Nat.le_trans h5 (by rw [← h3]; exact h4)
 
-/-- what always holds on the code as it is: the quorum is a quorum of distinct SIGNATURES by deputies. -/
+/-- what held on the code before commit d34eb0a: the quorum is a quorum of distinct SIGNATURES by deputies. -/
 theorem quorum_signatures (dc n g : Nat) (hn : n ≤ dc) (ops : List Op) (op : Op) :
     let s := run verifyNewConfirms (init dc n g) ops
     let s' := (step verifyNewConfirms s op).1
@@ -958,7 +968,7 @@ theorem quorum_signatures (dc n g : Nat) (hn : n ≤ dc) (ops : List Op) (op : O
   obtain ⟨hs, hen⟩ := stable_change_has vok_faithful dc n g ops op hne
   exact ⟨hs, by rw [List.length_cons]; exact enough_le hn hen⟩
 
-/-! ## the repair: de-duplicate by recovered node, the miner included -/
+/-! ## the code as it is now (commit d34eb0a): de-duplicate by recovered node, the miner included -/
 
 structure NodeOK (n : Nat) (b : Blk) : Prop where
   nodup : (signersOf b).Nodup
@@ -1054,8 +1064,9 @@ theorem vok_fixed : VOK verifyNewConfirmsFixed NodeOK where
     have hacc := verifyLoopFixed_acc n b h.hdr.1 sigs [] .none h0
     exact appendConfirm_nodeOK n _ b h hacc.1 hacc.2
 
-/-- FULL theorem for the repaired verifier (`verifyNewConfirmsFixed` = the proposed diff: a confirmation
-    is new only if its RECOVERED NODE is neither the miner nor the signer of a confirmation already held): whenever
+/-- HEADLINE — the FULL quorum theorem, for the code as it is (`verifyNewConfirmsFixed` = validator.go
+    since commit d34eb0a: a confirmation is new only if its RECOVERED NODE is neither the miner nor the
+    signer of a confirmation already held): whenever
     the stable pointer moves to a block, at least ⌈2n/3⌉ DISTINCT deputies, miner included, signed it —
     for every deputy count, block tree, confirmation multiset (re-encodings and re-signings included)
     and arrival order. -/
@@ -1079,11 +1090,20 @@ theorem quorum_distinct_fixed (dc n g : Nat) (hn : n ≤ dc) (ops : List Op) (op
   have h5 := enough_le hn hen
   exact Nat.le_trans h5 (by rw [← h3]; exact h1)
 
-/-- the repaired verifier refuses the forged packet of `quorum_distinct_refuted`. -/
+/-- the current verifier refuses the forged packet of `quorum_distinct_refuted`. -/
 example :
     let s := run verifyNewConfirmsFixed (init 3 3 0) [.block ⟨1, 0, 1, 0, 1, ⟨some 0, 0⟩, []⟩ true]
     (step verifyNewConfirmsFixed s (.confirms 1 1 [⟨some 0, 1⟩])).2 = "ErrNoNewConfirm" ∧
     (step verifyNewConfirmsFixed s (.confirms 1 1 [⟨some 0, 1⟩])).1.stable.id = 0 := by decide
+
+/-- non-vacuity of `quorum_distinct_fixed` (current code): with honest signatures the stable pointer
+    does move (2 of 3 deputies), a sibling fork is pruned and the head moves over. -/
+example :
+    let s := run verifyNewConfirmsFixed (init 3 3 0)
+      [.block ⟨1, 0, 1, 0, 5, ⟨some 0, 0⟩, []⟩ true, .block ⟨2, 0, 1, 1, 3, ⟨some 1, 0⟩, []⟩ true,
+       .block ⟨3, 1, 2, 1, 4, ⟨some 1, 0⟩, []⟩ true]
+    let s' := (step verifyNewConfirmsFixed s (.confirms 2 1 [⟨some 2, 0⟩, ⟨some 2, 1⟩])).1
+    s.headId = 3 ∧ s'.stable.id = 2 ∧ s'.headId = 2 ∧ s'.tree = [] ∧ distinctCount 3 s'.stable = 2 := by decide
 
 /-- non-vacuity: with honest signatures the stable pointer does move (2 of 3 deputies), the head
     follows, and the guard of `quorum_distinct_partial` is satisfiable. -/
